@@ -720,7 +720,27 @@ func (c *wgCtx) check0(cfg simrt.Config) ([]mismatch, simrt.Stats, string) {
 		if out.accepted() && wf {
 			mm = append(mm, compareWithRef(out.G, c.ref)...)
 		} else if out.accepted() {
-			// not well-founded but accepted: still check the reference free clauses
+			// not well-founded but accepted: the statement of C04 speaks of every
+			// model the builder accepts, so the clause "a weight for exactly the
+			// terminal types that can reach it" still binds (T is a least fixpoint,
+			// defined for every model); relation nodes are addressed by label
+			for _, rn := range c.ref.order {
+				if rn.kind != rkRel {
+					continue
+				}
+				n, ok := out.G.GetNodes()[rn.id]
+				if !ok {
+					continue
+				}
+				got := map[string]bool{}
+				for k := range n.GetWeights() {
+					got[k] = true
+				}
+				if !sameSet(got, rn.T) {
+					add("C04", "weights.node", rn.id, "relation %s of an accepted model carries weights for %v, the terminal types that can reach it are %v", rn.id, setKeys(got), setKeys(rn.T))
+				}
+			}
+			// ... and the reference free clauses
 			for l, n := range out.G.GetNodes() {
 				if n.GetNodeType() == graph.SpecificTypeAndRelation && len(n.GetWeights()) == 0 {
 					add("C04", "weights.empty", l, "relation %s has an empty weight map", l)
